@@ -884,10 +884,11 @@ func TestC06(t *testing.T) {
 	defer debug.SetGCPercent(debug.SetGCPercent(800))
 	r := mon.Start(t, "C06")
 	defer r.Finish()
-	r.Rule("response case = 1 cookie (hostile bytes: tokens rich in ; = \" \\ CR LF SP NUL %3B and attribute look-alikes) or 1-3 cookies (RFC 6265 cookie-octets) with a random subset of the 8 attribute setters (domain, path, expire, max-age, Secure, HttpOnly, SameSite x4 modes, Partitioned) applied in random order, through Cookie.Cookie()->ParseBytes and ResponseHeader.SetCookie->Response.Write->Response.Read / net/http; request case = 1-4 SetCookie/SetCookieBytesK/SetCookieBytesKV/DelCookie calls on a small key pool (so overwrite and delete happen) through Request.Write->Request.Read / net/http ReadRequest().Cookies(); distinct = (side, octet|hostile, attribute ops in order, byte classes present, parser outcomes); non-trivial = any attribute set, any hostile byte class, or more than one cookie")
+	r.Rule("response case = 1 cookie (hostile bytes: tokens rich in ; = \" \\ CR LF SP NUL %3B and attribute look-alikes) or 1-3 cookies (RFC 6265 cookie-octets) with a random subset of the 8 attribute setters (domain, path, expire, max-age, Secure, HttpOnly, SameSite x4 modes, Partitioned) applied in random order, through Cookie.Cookie()->ParseBytes and ResponseHeader.SetCookie->Response.Write->Response.Read / net/http; request case = 1-4 SetCookie/SetCookieBytesK/SetCookieBytesKV/DelCookie calls on a small key pool (so overwrite and delete happen) through Request.Write->Request.Read / net/http ReadRequest().Cookies(); re-use case = a Cookie (zero value or from AcquireCookie) filled in cycle 1 (setters | ParseBytes | Parse | ResponseHeader.Cookie | CopyTo, two thirds of the time with every attribute incl. Partitioned) then taken through Reset+setters | Release+Acquire+setters | ParseBytes | Parse | CopyTo | ResponseHeader.Cookie | a Cookies()/VisitAllCookie loop over two headers | Reset only, with an independently drawn cycle-2 attribute set, compared with a fresh Cookie given the same cycle-2 program and with the input model / the record the Set-Cookie text was written from; distinct = (side, octet|hostile, attribute ops in order, byte classes present, parser outcomes); non-trivial = any attribute set, any hostile byte class, or more than one cookie")
 	r.Assume("the oracle is a model of the inputs: attributes requested through the setters, with the documented effects (SetSameSite(None) and SetPartitioned(true) set Secure; SetPartitioned(true) sets Path=/; max-age takes precedence over expires; a negative max-age is written as Max-Age=0, which fasthttp reads back as 'no max-age'); domain/path values are compared with the setter-side getter modulo surrounding spaces and one pair of double quotes (cookie-av parse leniency); a blank domain/path is skipped and counted")
 	r.Assume("a parse that rejects the whole cookie/message is 'rejected, nothing smuggled' for hostile inputs; for cookie-octet inputs rejection is a violation. cookie-octet names exclude '=' (cookie-name is a token in RFC 6265; a name containing '=' cannot be expressed in the syntax); net/http is judged for equality only when the name is a token, otherwise only for extra attributes/cookies")
 	r.Assume("request side, hostile inputs: the server's cookies must be a sub-multiset of the cookies set, comparing the pair text name=value modulo spaces, tabs and double quotes (a name containing '=' moves the split point, which is not judged); expiry years are within 1601..9999")
+	r.Assume("re-use cases: the reference Set-Cookie texts are written by this package's own serialiser from cookie-octet records (attribute names in any case, '; ' or ';' separators); ResponseHeader.Cookie on a key that is absent leaves the target untouched and is not judged")
 	nResp := r.N(120_000, 3_000_000)
 	nReq := r.N(80_000, 2_000_000)
 	const block = 500
@@ -911,6 +912,21 @@ func TestC06(t *testing.T) {
 		}
 		ev.flush(r)
 	})
+	// re-used Cookie objects (reuse_test.go)
+	nReuse := r.N(60_000, 1_500_000)
+	mon.Parallel((nReuse+block-1)/block, 0, func(bi int) {
+		ev := evAgg{}
+		for k := 0; k < block; k++ {
+			j := bi*block + k
+			if j < nReuse && r.Want(nResp+nReq+j) {
+				reuseCase(r, ev, nResp+nReq+j)
+			}
+		}
+		ev.flush(r)
+	})
+	r.Require("reuse_compared_with_fresh", nReuse*9/10)
+	r.Require("reuse_compared_with_reference", nReuse*8/10)
+	r.Require("reuse_partitioned_then_not", nReuse/10)
 	r.Require("direct_parsed", nResp/2)
 	r.Require("wire_parsed_fasthttp", nResp/2)
 	r.Require("wire_parsed_nethttp", nResp/8)
